@@ -106,6 +106,13 @@ def veq(ex, x, y):
     if isinstance(x, PyVec) and isinstance(y, PyVec):
         if len(x.items) != len(y.items): return False
         return zand(*[veq(ex, p, q) for p, q in zip(x.items, y.items)])
+    if isinstance(x, PyMap) and isinstance(y, PyMap):
+        # map equality (BTreeMap / IndexMap / HashMap: same key set, equal values) - concrete string keys only
+        if len(x.keys) != len(y.keys): return False
+        try: dx = {pystr(ex.deref(k)): v for k, v in zip(x.keys, x.vals)}; dy = {pystr(ex.deref(k)): v for k, v in zip(y.keys, y.vals)}
+        except Exception: raise Unsupported('map equality with non-concrete / non-string keys')
+        if set(dx) != set(dy): return False
+        return zand(*[veq(ex, dx[k], dy[k]) for k in dx])
     if isinstance(x, Opaque) or isinstance(y, Opaque): return x is y
     if isinstance(x, (int, bool)) and isinstance(y, (int, bool)): return x == y
     if is_sym(x) or is_sym(y): return zi(x) == zi(y)
